@@ -1,3 +1,5 @@
+import Cpl.Gen.Apen
+import Cpl.Model.Measures
 import Cpl.Ties.C19Lemmas
 
 /-!
@@ -52,12 +54,6 @@ theorem pyRange_zero_int (b : Int) : pyRange 0 b 1 = (List.range b.toNat).map In
     generalize b.toNat = n at h
     subst h
     rw [C10tie.pyRange_unit]
-
-theorem getIdx_nat (u : List Int) (k : Nat) (hk : k < u.length) :
-    (Py.getIdx u (k : Int)).toOption = some (u[k]'hk) := by
-  unfold Py.getIdx
-  have h1 : ¬ ((k : Int) < 0) := by omega
-  simp [h1, hk, Except.toOption]
 
 theorem window_tie (u : List Int) (m i : Nat) (hi : i + m ≤ u.length) :
     List.mapM (fun v_j : Int => ((pure v_j : Option Int) >>= fun k_i => (Py.getIdx u k_i).toOption))
